@@ -88,6 +88,23 @@ static void one_pattern(const char *pat0)
 	} else {
 		nv_stat("rejected", 1);
 	}
+	/* the reader that cuts a delimited pattern out of a command (/pat/, :s/pat/.., :g/pat/..): it must stop
+	 * at the end of the string whatever the pattern ends in (exact-size heap copy, so the sanitizer sees it) */
+	{
+		static const char delims[] = "/?|";
+		int di;
+		for (di = 0; di < 3; di++) {
+			char *src = malloc(plen + 2), *p2 = src, *r;
+			src[0] = delims[di];
+			memcpy(src + 1, pat0, plen + 1);
+			r = re_read(&p2);
+			if (!r || p2 < src + 1 || p2 > src + plen + 1)
+				nv_viol("c11-reread", "kind=pattern the pattern reader on \"%c%s\" returned %s and left the scan position at offset %ld of %d",
+					delims[di], nv_esc(pat0, -1), r ? "a pattern" : "NULL", (long) (p2 - src), plen + 1);
+			free(r);
+			free(src);
+		}
+	}
 	nv_stat("states", 1);
 	n_matches = n_found = 0;
 	if (!exact_only) {
